@@ -642,3 +642,69 @@ func tail(s string, n int) string {
 	}
 	return "    | " + strings.Join(ls, "\n    | ")
 }
+
+// runReplay re-runs a replay file (a counterexample or witness written by a check) against the
+// NATIVE build of its harness in /repo's current working tree and prints what the real code
+// does. Exit 1 if the recorded assertion fails (or the run panics / the allocator or
+// AddressSanitizer aborts it), 0 if the run passes, 2 if it cannot be run.
+func runReplay(path string, args []string) int {
+	fs := newFlagSet("replay")
+	repo := fs.String("repo", "/repo", "")
+	fs.Parse(args)
+	if vd := os.Getenv("VERIF_DIR"); vd != "" {
+		verifDir = vd
+	}
+	b, err := os.ReadFile(path)
+	if err != nil {
+		fmt.Fprintln(os.Stderr, err)
+		return 2
+	}
+	var rf struct {
+		Harness  string `json:"harness"`
+		Property string `json:"property"`
+		Label    string `json:"label"`
+	}
+	if err := json.Unmarshal(b, &rf); err != nil {
+		fmt.Fprintln(os.Stderr, "replay file:", err)
+		return 2
+	}
+	var specs map[string]propSpec
+	cb, err := os.ReadFile(filepath.Join(verifDir, "checks.json"))
+	if err != nil || json.Unmarshal(cb, &specs) != nil {
+		fmt.Fprintln(os.Stderr, "checks.json unreadable")
+		return 2
+	}
+	var hs *harnessSpec
+	for _, ps := range specs {
+		for i := range ps.Harnesses {
+			if ps.Harnesses[i].Name == rf.Harness {
+				hs = &ps.Harnesses[i]
+			}
+		}
+	}
+	if hs == nil {
+		fmt.Fprintf(os.Stderr, "harness %s is not registered in checks.json\n", rf.Harness)
+		return 2
+	}
+	abs, _ := filepath.Abs(path)
+	nb := &nativeBuilder{repo: *repo, hdir: filepath.Join(verifDir, "harness"), bins: map[string]string{}, errs: map[string]string{}}
+	nr, err := nb.replay(hs.Pkg, abs, hs.NativeASan)
+	if err != nil {
+		fmt.Fprintln(os.Stderr, err)
+		return 2
+	}
+	fmt.Print(nr.Raw)
+	failed := len(nr.Violations) > 0 || nr.Panic != ""
+	if !failed && strings.HasPrefix(rf.Label, "engine:memory-safety") && !hs.NativeASan {
+		if nr2, err2 := nb.replay(hs.Pkg, abs, true); err2 == nil && nr2.Panic != "" {
+			fmt.Print(nr2.Raw)
+			nr, failed = nr2, true
+		}
+	}
+	fmt.Printf("REPLAY property=%s harness=%s label=%q: violations=%v panic=%q\n", rf.Property, rf.Harness, rf.Label, nr.Violations, nr.Panic)
+	if failed {
+		fmt.Printf("VIOLATION property=%s replay=%s\n", rf.Property, abs)
+		return 1
+	}
+	return 0
+}
